@@ -7,6 +7,7 @@
 import random
 
 import c10
+import growth_pli_dump
 import vlib
 
 META = {
@@ -17,7 +18,7 @@ META = {
             "enumerates every sequence of 3-4 lifecycle/traffic calls over 12 call kinds, which is executed on fresh "
             "instances of all 19 interceptor kinds and three chains with a per-call watchdog, a goroutine census after "
             "Close and transport-side recording; traces are validated by TLC.",
-    "note": "Trusted: watchdog of 2 s per call as the meaning of 'blocks indefinitely' (a blocked call is confirmed by its "
+    "note": "Trusted: watchdog of 4 s per call as the meaning of 'blocks indefinitely' (a blocked call is confirmed by its "
             "goroutine stack in the replay); goroutine census by stack frames of the library; feedback members run with "
             "1 ms tickers. 'State released / fresh state after rebind' is covered only through P4 and the census here "
             "(functional freshness is part of C03/C04 rebinding scripts); collectability is C12.",
@@ -84,7 +85,7 @@ def to_script(rng, kinds, seq, prefix):
         add(a)
     for a in seq:
         add(a)
-    return {"members": members, "steps": steps, "watch": 2000, "settle": 5}
+    return {"members": members, "steps": steps, "watch": 4000, "settle": 5}
 
 
 def nontrivial(evs):
@@ -146,7 +147,11 @@ def run(ctx):
                        files=["zz_verif_univ_test.go", "common:zz_verif_pkt_test.go.tpl"], test="TestVerifUnivExec",
                        trace_module="Trace_Conc.tla", nontrivial=lambda evs: True, race=False, go_timeout=2400,
                        culprit_hint=vlib.univ_culprit_hint)
-    ctx.assumptions += ["a call that has not returned after 2 s is blocked (its goroutine stack is stored in the replay)",
+    # specification growth: functional specifications of intervalpli and packetdump (behaviour no listed property states;
+    # divergences are NOTE lines, never a verdict)
+    notes = growth_pli_dump.run_growth(ctx)
+    ctx.cov["growth_notes"] = notes
+    ctx.assumptions += ["a call that has not returned after 4 s is blocked (its goroutine stack is stored in the replay)",
                         "reads on twcc/rfc8888 senders before BindRTCPWriter are not generated (they wait for the loop by design)"]
     return vlib.finish(ctx, "model_checking", RULE)
 
